@@ -520,7 +520,7 @@ def check_batch_visibility(res, ctx, combos):
                     recs.append(json.loads(line))
                 except ValueError:
                     pass
-        if r.returncode != 0 or len(recs) < 5 or any("error" in x for x in recs):
+        if r.returncode != 0 or len(recs) < 6 or any("error" in x for x in recs):
             res.violation("open-batch visibility scenarios (index %d, io %d) did not run: %s" % (idx, io, (r.stdout + r.stderr)[-300:]),
                           {"cmd": "xkv batchvis <dir> %d %d" % (idx, io)})
             continue
